@@ -20,9 +20,9 @@ def cases(tier, seed):
     out = []
     N = 4 if tier == "quick" else 6
     # (a) multi-key combination
-    shapes = [(2, 2), (1, 3), (3, 2), (2, 1)] if tier == "quick" else [s for k in (2, 3) for s in itertools.product((1, 2, 3), repeat=k)]
+    shapes = [(2, 2), (1, 3), (3, 2), (2, 1), (2, 2, 2), (2, 1, 2)] if tier == "quick" else [s for k in (2, 3) for s in itertools.product((1, 2, 3), repeat=k)]
     for sh in shapes:
-        Nc = (N if tier == "quick" else 5) if len(sh) == 2 else 4
+        Nc = (N if tier == "quick" else 5) if len(sh) == 2 else (3 if tier == "quick" else 4)
         out.append({"kind": "combine", "N": Nc, "shape": list(sh),
                     "name": f"factorize_2d/_combine_factorizations: {len(sh)} keys with {sh} labels, N={Nc}", "witness": sh == (2, 2)})
     # (b) monotonic fast path
@@ -420,7 +420,7 @@ def replay(case, conc, cand=None):
 
 META = {
     "glue": ['groupby_lib/groupby/core.py::_factorize_group_key_in_chunks', 'groupby_lib/groupby/core.py::_group_sort_indexer', 'groupby_lib/groupby/core.py::count_ikey', 'groupby_lib/groupby/factorization.py::factorize_2d', 'groupby_lib/groupby/factorization.py::factorize_range_index', 'groupby_lib/groupby/factorization.py::monotonic_factorization'],
-    "bounds": {"quick": {"N": 4, "keys": "2 keys with label counts (2,2),(1,3),(3,2),(2,1)", "monotonic chunks": "<= 2", "sorted indexer": "N=4, G=2"},
+    "bounds": {"quick": {"N": 4, "keys": "2 keys with label counts (2,2),(1,3),(3,2),(2,1); 3 keys (2,2,2),(2,1,2) at N=3", "monotonic chunks": "<= 2", "sorted indexer": "N=4, G=2"},
                "thorough": {"N": 6, "keys": "2-3 keys, label counts in 1..3", "monotonic chunks": "<= 3", "sorted indexer": "N=5, G=3"}},
     "enumerated": ["for the chunk-wise constructor path: every key sequence of the bound over {1,2,3,null} and every 2-chunk layout, sort on/off (values symbolic)",
                    "number of keys and label counts per key (the mixed-radix weights are then concrete)", "chunk layouts of the monotonic fast path",
